@@ -99,3 +99,31 @@ package fiber
 //@   ensures[C16] resolved_controller_is_used: ncalls("godi.Resolve") == 1 && callret("godi.Resolve", 0, 1) == nil && !(recovery && ncalls("field:HandlerConfig.PanicHandler") == 1) ==> ncalls("fnvar:method") == 1
 //@   ensures[C16] panic_handler_only_when_enabled: ncalls("field:HandlerConfig.PanicHandler") <= 1 && (ncalls("field:HandlerConfig.PanicHandler") == 1 ==> recovery)
 //@   panics[C16] panics_pass_through_only_when_recovery_is_off: !recovery || ncalls("field:HandlerConfig.PanicHandler") == 1
+// The option constructors of this package keep the configuration complete: a nil handler keeps what is there (the default).
+// This is what makes `handlers_set`, the precondition of the request closures above, true for configurations built from them.
+//@ func WithErrorHandler$1
+//@   safety[C15,C16]
+//@   requires cfg: c != nil
+//@   ensures[C15,C16] a_nil_handler_keeps_the_default: old(c.ErrorHandler) != nil ==> c.ErrorHandler != nil
+//@   ensures[C16] a_given_handler_is_installed: h != nil ==> c.ErrorHandler == h
+//@ func WithCloseErrorHandler$1
+//@   safety[C15,C16]
+//@   requires cfg: c != nil
+//@   ensures[C15,C16] a_nil_handler_keeps_the_default: old(c.CloseErrorHandler) != nil ==> c.CloseErrorHandler != nil
+//@   ensures[C16] a_given_handler_is_installed: h != nil ==> c.CloseErrorHandler == h
+//@ func WithPanicHandler$1
+//@   safety[C15,C16]
+//@   requires cfg: c != nil
+//@   ensures[C15,C16] a_nil_handler_keeps_the_default: old(c.PanicHandler) != nil ==> c.PanicHandler != nil
+//@   ensures[C16] a_given_handler_is_installed: h != nil ==> c.PanicHandler == h
+//@ func WithScopeErrorHandler$1
+//@   safety[C15,C16]
+//@   requires cfg: c != nil
+//@   ensures[C15,C16] a_nil_handler_keeps_the_default: old(c.ScopeErrorHandler) != nil ==> c.ScopeErrorHandler != nil
+//@   ensures[C16] a_given_handler_is_installed: h != nil ==> c.ScopeErrorHandler == h
+//@ func WithResolutionErrorHandler$1
+//@   safety[C15,C16]
+//@   requires cfg: c != nil
+//@   ensures[C15,C16] a_nil_handler_keeps_the_default: old(c.ResolutionErrorHandler) != nil ==> c.ResolutionErrorHandler != nil
+//@   ensures[C16] a_given_handler_is_installed: h != nil ==> c.ResolutionErrorHandler == h
+//
